@@ -219,6 +219,19 @@ CHECKS = {
         "Four base models; reference positions listed by hand (REFS).",
         "DESIGN.md section 4 / C20",
     ),
+    "C18": (
+        "model_checking",
+        "E2+E3",
+        "exhaustive overwrite matrix (save function x format incl. failing/unknown plugins x target state x allow_overwrite) "
+        "with byte+mtime tree snapshots; enumeration of every Project.optimize name history up to the depth bound replayed on "
+        "fresh real project folders against a reference model (name -> run count)",
+        "Every cell of the save matrix is executed on a scratch tree and judged on refusal, plugin call order and "
+        "byte-identity of all files; every sequence of result names (prefix-related, containing '_run_', dotted, with stray "
+        "folders) is replayed through the real Project.optimize / save / lookup / load code with invariants after every "
+        "event; import/generate flag histories likewise.",
+        "The fit inside Project.optimize is replaced by a genuine pre-computed Result; depth 3 (quick) / 4 (thorough).",
+        "DESIGN.md section 4 / C18",
+    ),
 }
 
 PENDING_REASON = "check under construction in this round - not claimed until its check runs clean on the unchanged tree"
@@ -260,7 +273,7 @@ def main():
         },
         "engines": [
             {"name": "E1", "path": "vf/core.py", "serves_properties": ["C01", "C02", "C03", "C04", "C05", "C06", "C07", "C08", "C09", "C11", "C13", "C14", "C16", "C20"], "kind_free_text": "bounded exhaustive input-space enumeration with reference oracles, 16 workers"},
-            {"name": "E2", "path": "vf/explore.py", "serves_properties": ["C10", "C12", "C19"], "kind_free_text": "explicit-state BFS over event histories replayed on fresh real objects, full-state digests"},
+            {"name": "E2", "path": "vf/explore.py", "serves_properties": ["C10", "C12", "C18", "C19"], "kind_free_text": "explicit-state BFS over event histories replayed on fresh real objects, full-state digests"},
             {"name": "E3", "path": "vf/checks/c15.py", "serves_properties": ["C15"], "kind_free_text": "deviation-bounded fault enumerator (all single / pairs of deviations from the fault-free environment), forked watchdog"},
             {"name": "E5", "path": "vf/prange.py", "serves_properties": ["C10"], "kind_free_text": "partial-order (conflict relation) exploration of numba prange kernels on py_func with recording array proxies"},
             {"name": "E4", "path": "vf/tlc.py", "serves_properties": ["C19"], "kind_free_text": "TLA+ model explored by TLC; every edge of the dumped state graph replayed against the implementation"},
